@@ -191,6 +191,8 @@ def c13_r2(ctx):
             ctx.saw(f)
             v = c.args[3]
             ok = False
+            if isinstance(v, ast.Call) and norm.canon(v.func) == "self.prepare_number" and len(v.args) == 1:
+                ok = True       # handed over directly
             if isinstance(v, ast.Name):
                 # the last assignment to that name before the call is  v = self.prepare_number(v)
                 last = None
@@ -235,7 +237,7 @@ def c13_r3(ctx):
     IA = pm.Alpha(ix)
     loops = [norm.canon(n.iter) for n in ast.walk(ix.node) if isinstance(n, ast.For) and isinstance(n.target, ast.Name) and
              any(isinstance(y, ast.Yield) and isinstance(y.value, ast.Tuple) and y.value.elts and
-                 IA.eq(y.value.elts[0], "self.to_bytes(num, %s)" % n.target.id) for y in ast.walk(n))]
+                 IA.eq(y.value.elts[0], "self.to_bytes(num, %s)" % n.target.id, al=True) for y in ast.walk(n))]
     ctx.ob(ix, loops in (["xrange(0, self.bits, self.shift_step)"], ["range(0, self.bits, self.shift_step)"]),
            "one term per shift in range(0, bits, shift_step)", detail=str(loops))
     cq = prog.method("query.ranges.NumericRange", "_compile_query", inherited=False)
@@ -334,6 +336,15 @@ def c13_r5(ctx):
     src = f.params[1]
     # the string may be re-bound once (normalisation of separators); the facts are about the final name
     seen = []
+    # the length may be held in a local (`qlen = len(qstring)`, bound once, after the last re-binding of the string)
+    lens = ["len(%s)" % src]
+    an = norm.assigned_names(f.node)
+    fpos = norm.source_pos(f.node)
+    src_stores = [x for x in ast.walk(f.node) if isinstance(x, ast.Name) and x.id == src and isinstance(x.ctx, ast.Store)]
+    for st in ast.walk(f.node):
+        if isinstance(st, ast.Assign) and len(st.targets) == 1 and isinstance(st.targets[0], ast.Name) and norm.canon(st.value) == "len(%s)" % src \
+                and len(an.get(st.targets[0].id, [])) == 1 and all(fpos(x) < fpos(st) for x in src_stores):
+            lens.append(st.targets[0].id)
     for n in fa.g.nodes:
         for frag in cfgmod.node_exprs(n):
             for x in ast.walk(frag):
@@ -342,11 +353,11 @@ def c13_r5(ctx):
                     lo = x.slice.lower.value if isinstance(x.slice.lower, ast.Constant) else 0
                     hi = x.slice.upper.value
                     facts = fa.at(n) or frozenset()
-                    ok = ("F", "(len(%s) < %d)" % (src, hi)) in facts or ("T", "(%d == len(%s))" % (hi, src)) in facts or \
-                        ("T", "(len(%s) == %d)" % (src, hi)) in facts
+                    ok = any(("F", "(%s < %d)" % (L, hi)) in facts or ("T", "(%d == %s)" % (hi, L)) in facts or
+                             ("T", "(%s == %d)" % (L, hi)) in facts for L in lens)
                     seen.append((lo, hi))
                     ctx.ob(f, ok, "%s[%d:%d] is read exactly when len(%s) >= %d" % (src, lo, hi, src, hi),
-                           detail="guards here: %s" % sorted(t for t in facts if "len(" in t[1]), loc=ctx.nodeloc(f, x))
+                           detail="guards here: %s" % sorted(t for t in facts if any(L in t[1] for L in lens)), loc=ctx.nodeloc(f, x))
     seen.sort()
     tiles = all(seen[i][1] == seen[i + 1][0] for i in range(len(seen) - 1)) and bool(seen) and seen[0][0] == 0
     ctx.ob(f, len(seen) >= 5 and tiles, "the fixed-width fields tile the string from position 0", detail=str(seen))
